@@ -8,9 +8,9 @@ package main
 // calls, recursion, callees with conditional defers or recover, functions outside the repository - stay calls.
 
 import (
-	"go/constant"
 	"bytes"
 	"fmt"
+	"go/constant"
 	"go/token"
 	"os"
 	"sort"
@@ -100,7 +100,9 @@ func (p *Prog) constFuncMap(g *ssa.Global) []ssa.ConstMapEntry {
 			}
 		}
 	}
-	sort.Slice(out, func(i, j int) bool { return constant.StringVal(out[i].Key.Value) < constant.StringVal(out[j].Key.Value) })
+	sort.Slice(out, func(i, j int) bool {
+		return constant.StringVal(out[i].Key.Value) < constant.StringVal(out[j].Key.Value)
+	})
 	return out
 }
 
